@@ -247,6 +247,14 @@ func yyInputs(r *Result) (srcs [][]byte, tags []string) {
 	for _, b := range genBytesExhaustive(k) {
 		add(b, "g-bytes")
 	}
+	// (state, lookahead) coverage of the action tables: every pair in the thorough tier, every fifth in the quick tier
+	for _, fam := range []int{7, 5} {
+		for i, b := range stateTokenInputs(fam, rng, base) {
+			if opts.Tier == "thorough" || i%5 == 0 {
+				add(b, "state-x-token")
+			}
+		}
+	}
 	return
 }
 
